@@ -16,10 +16,12 @@ META = dict(
     explanation="NonnegMean.test(x) of every shipped test/estimator/bet is executed symbolically from the real source with the sample "
                 "x_1..x_n (each in [0,u]) and every tuning parameter as z3 reals over their documented ranges; the float model tracks "
                 "NaN/inf exactly. Claims per configuration: len(history)=n, every entry and the overall p finite, not NaN, in [0,1]; "
-                "overall = min(history) (random order) or history[-1]; no exception.",
+                "overall = min(history) (random order) or history[-1]; no exception. Rounding cells: where a value handed to numpy.sqrt is a "
+                "difference a - b (possibly scaled), the solver looks for inputs with a - b < 2^-50 (|a|+|b|); such a candidate is confirmed "
+                "on the real code (the model's sample, then constant non-dyadic samples) and reported only if the history contains NaN.",
     bounds={"quick": {"n": "1, 2, 3 (kaplan_kolmogorov also 4)", "N": "n, n+1, n+3, 50, inf", "ut": ["plur", "super", "cmp10"]},
             "thorough": {"n": "1..5 (shrink_trunc, agrapa: 1..3)", "N": "n, n+1, n+3, 50, inf", "ut": list(nnm.UT)}},
-    outside=["samples longer than the bound", "floating-point rounding, overflow and underflow (exact reals + IEEE specials)",
+    outside=["samples longer than the bound", "floating-point rounding, overflow and underflow (exact reals + IEEE specials) other than the root-of-a-cancelling-difference pattern",
              "u,t outside the grid"],
     assumptions=["eta in (t,u); c,d,minsd > 0; f >= 0; lam in [0,1/u] for fixed_bet (free for agrapa); c_grapa_0 <= c_grapa_max in (0,1); "
                  "c_grapa_grow >= 0; g in [0,1) (kaplan_wald: [0,1]); rate_error_2 in [0,1]",
